@@ -10,6 +10,8 @@
                      accept -LAccept-> lock1 -LLock1-> lock2 -LLock2-> accept        (a connection)
                      accept -LTimeout-> check -LCheck-> accept | final -LFinal-> exited   (0.5 s accept timeout)
      handler c       start -HStart-> serving -HServeEnd-> fin -HFin-> done
+                     with max_connections = n > 0:  start -HStart-> semwait -HAcquire (a permit is free)-> serving;
+                     the permit is given back in HServeEnd.  A queued connection counts in conn_count from LLock1 on.
      timer t         armed -TFire-> fired -TRun-> done          cancel(): armed -> cancelled, otherwise no effect
                      (threading.Timer: cancel() after the wait has elapsed does not stop the callback)
      environment     Arrive (a client connects; the kernel queues it while the listener is open)
@@ -22,13 +24,15 @@
 EXTENDS Naturals, FiniteSets, Sequences, TLC
 
 CONSTANTS MaxConns,          \* number of client connections that may arrive
+          MaxParSet,         \* values of max_connections explored (0 = None, unlimited); chosen in Init
           FixClearOnAccept, FixStaleTimer
 
 MaxTimers == MaxConns + 1    \* one startup-grace timer + one re-arm per connection end (structural bound)
 Conns == 1..MaxConns
 Timers == 1..MaxTimers
 
-VARIABLES arrived, accepted,      \* connections that connected / that accept() returned (ids are 1..arrived)
+VARIABLES maxPar, permits,        \* max_connections of this run and the free permits of its Semaphore
+          arrived, accepted,      \* connections that connected / that accept() returned (ids are 1..arrived)
           lpc,                    \* accept-loop thread
           hpc,                    \* handler thread per connection: "none" until accepted
           connCount, shutdownReq, \* closure variables conn_count, shutdown_requested
@@ -38,10 +42,10 @@ VARIABLES arrived, accepted,      \* connections that connected / that accept() 
           idleElapsed,            \* ghost: a full idle interval elapsed with zero connections and none accepted since
           late,                   \* ghost: connections accepted while shutdown_requested was already set
           exitServing, exitNotIdle, exitLate   \* ghost: evaluated at the moment the loop stops accepting
-vars == <<arrived, accepted, lpc, hpc, connCount, shutdownReq, timer, tst, tkind, nTimers, quiet, idleElapsed,
+vars == <<maxPar, permits, arrived, accepted, lpc, hpc, connCount, shutdownReq, timer, tst, tkind, nTimers, quiet, idleElapsed,
           late, exitServing, exitNotIdle, exitLate>>
 
-Init == /\ arrived = 0 /\ accepted = 0 /\ lpc = "start" /\ hpc = [c \in Conns |-> "none"]
+Init == /\ maxPar \in MaxParSet /\ permits = maxPar /\ arrived = 0 /\ accepted = 0 /\ lpc = "start" /\ hpc = [c \in Conns |-> "none"]
         /\ connCount = 0 /\ shutdownReq = FALSE /\ timer = 0
         /\ tst = [t \in Timers |-> "none"] /\ tkind = [t \in Timers |-> "none"] /\ nTimers = 0
         /\ quiet = [t \in Timers |-> FALSE] /\ idleElapsed = FALSE /\ late = {}
@@ -49,7 +53,7 @@ Init == /\ arrived = 0 /\ accepted = 0 /\ lpc = "start" /\ hpc = [c \in Conns |-
 
 Ghost == <<quiet, idleElapsed, late, exitServing, exitNotIdle, exitLate>>
 \* accepted and not yet finished being served (a connection accept() just returned has no handler thread yet)
-Live == {c \in Conns : hpc[c] \in {"start", "serving"}} \cup (IF lpc \in {"lock1", "lock2"} THEN {accepted} ELSE {})
+Live == {c \in Conns : hpc[c] \in {"start", "semwait", "serving"}} \cup (IF lpc \in {"lock1", "lock2"} THEN {accepted} ELSE {})
 ListenerOpen == lpc # "exited"      \* the caller closes the listening socket after the loop function returns
 
 \* ---- helpers for the closure functions (always called with state_lock held) ----
@@ -66,34 +70,34 @@ CancelTimer == /\ tst' = Cancelled(tst, timer) /\ timer' = 0 /\ UNCHANGED <<nTim
 
 \* ---- environment ----
 Arrive == /\ ListenerOpen /\ arrived < MaxConns /\ arrived' = arrived + 1
-          /\ UNCHANGED <<accepted, lpc, hpc, connCount, shutdownReq, timer, tst, tkind, nTimers, Ghost>>
+          /\ UNCHANGED <<maxPar, permits, accepted, lpc, hpc, connCount, shutdownReq, timer, tst, tkind, nTimers, Ghost>>
 
 \* ---- accept loop ----
 LStart == /\ lpc = "start" /\ lpc' = "initlock"
-          /\ UNCHANGED <<arrived, accepted, hpc, connCount, shutdownReq, timer, tst, tkind, nTimers, Ghost>>
+          /\ UNCHANGED <<maxPar, permits, arrived, accepted, hpc, connCount, shutdownReq, timer, tst, tkind, nTimers, Ghost>>
 \* kind is what the code passed to Timer(): "grace" = max(idle_timeout, 60), "idle" = idle_timeout, "short" < idle_timeout
 LInit(kind) == /\ lpc = "initlock" /\ lpc' = "accept" /\ Arm(kind)
-               /\ UNCHANGED <<arrived, accepted, hpc, connCount, shutdownReq, idleElapsed, late, exitServing,
+               /\ UNCHANGED <<maxPar, permits, arrived, accepted, hpc, connCount, shutdownReq, idleElapsed, late, exitServing,
                               exitNotIdle, exitLate>>
 \* accept() returns the oldest queued connection
 LAccept == /\ lpc = "accept" /\ accepted < arrived
            /\ accepted' = accepted + 1 /\ lpc' = "lock1"
            /\ quiet' = [t \in Timers |-> FALSE] /\ idleElapsed' = FALSE
            /\ late' = IF shutdownReq THEN late \cup {accepted + 1} ELSE late
-           /\ UNCHANGED <<arrived, hpc, connCount, shutdownReq, timer, tst, tkind, nTimers, exitServing,
+           /\ UNCHANGED <<maxPar, permits, arrived, hpc, connCount, shutdownReq, timer, tst, tkind, nTimers, exitServing,
                           exitNotIdle, exitLate>>
 \* conn_count += 1; _cancel_timer_locked()        [intended: also shutdown_requested = False]
 LLock1(clear) == /\ lpc = "lock1" /\ lpc' = "lock2"
                  /\ connCount' = connCount + 1 /\ CancelTimer
                  /\ shutdownReq' = IF clear THEN FALSE ELSE shutdownReq
-                 /\ UNCHANGED <<arrived, accepted, hpc, Ghost>>
+                 /\ UNCHANGED <<maxPar, permits, arrived, accepted, hpc, Ghost>>
 \* active.add(t); t.start()   -- the handler thread exists from here on
 LLock2 == /\ lpc = "lock2" /\ lpc' = "accept"
           /\ hpc' = [hpc EXCEPT ![accepted] = "start"]
-          /\ UNCHANGED <<arrived, accepted, connCount, shutdownReq, timer, tst, tkind, nTimers, Ghost>>
+          /\ UNCHANGED <<maxPar, permits, arrived, accepted, connCount, shutdownReq, timer, tst, tkind, nTimers, Ghost>>
 \* accept() raises TimeoutError: nothing was queued for 0.5 s
 LTimeout == /\ lpc = "accept" /\ accepted = arrived /\ lpc' = "check"
-            /\ UNCHANGED <<arrived, accepted, hpc, connCount, shutdownReq, timer, tst, tkind, nTimers, Ghost>>
+            /\ UNCHANGED <<maxPar, permits, arrived, accepted, hpc, connCount, shutdownReq, timer, tst, tkind, nTimers, Ghost>>
 \* with state_lock: if shutdown_requested: break      -- the moment the worker stops accepting
 LCheck == /\ lpc = "check"
           /\ IF shutdownReq
@@ -102,29 +106,34 @@ LCheck == /\ lpc = "check"
                   /\ exitNotIdle' = ~idleElapsed
                   /\ exitLate' = (late \cap Live # {})
              ELSE /\ lpc' = "accept" /\ UNCHANGED <<exitServing, exitNotIdle, exitLate>>
-          /\ UNCHANGED <<arrived, accepted, hpc, connCount, shutdownReq, timer, tst, tkind, nTimers, quiet,
+          /\ UNCHANGED <<maxPar, permits, arrived, accepted, hpc, connCount, shutdownReq, timer, tst, tkind, nTimers, quiet,
                          idleElapsed, late>>
 \* finally: _cancel_timer_locked(); join the handler threads (bounded wait), return
 LFinal == /\ lpc = "final" /\ lpc' = "exited" /\ CancelTimer
-          /\ UNCHANGED <<arrived, accepted, hpc, connCount, shutdownReq, Ghost>>
+          /\ UNCHANGED <<maxPar, permits, arrived, accepted, hpc, connCount, shutdownReq, Ghost>>
 
 \* ---- connection handler threads ----
-HStart(c) == /\ hpc[c] = "start" /\ hpc' = [hpc EXCEPT ![c] = "serving"]
-             /\ UNCHANGED <<arrived, accepted, lpc, connCount, shutdownReq, timer, tst, tkind, nTimers, Ghost>>
+HStart(c) == /\ hpc[c] = "start" /\ hpc' = [hpc EXCEPT ![c] = IF maxPar = 0 THEN "serving" ELSE "semwait"]
+             /\ UNCHANGED <<maxPar, permits, arrived, accepted, lpc, connCount, shutdownReq, timer, tst, tkind, nTimers, Ghost>>
+\* semaphore.acquire() returns: the connection starts being served
+HAcquire(c) == /\ hpc[c] = "semwait" /\ permits > 0 /\ permits' = permits - 1
+               /\ hpc' = [hpc EXCEPT ![c] = "serving"]
+               /\ UNCHANGED <<maxPar, arrived, accepted, lpc, connCount, shutdownReq, timer, tst, tkind, nTimers, Ghost>>
 HServeEnd(c) == /\ hpc[c] = "serving" /\ hpc' = [hpc EXCEPT ![c] = "fin"]
-                /\ UNCHANGED <<arrived, accepted, lpc, connCount, shutdownReq, timer, tst, tkind, nTimers, Ghost>>
+                /\ permits' = IF maxPar = 0 THEN permits ELSE permits + 1
+                /\ UNCHANGED <<maxPar, arrived, accepted, lpc, connCount, shutdownReq, timer, tst, tkind, nTimers, Ghost>>
 \* conn_count -= 1; if conn_count == 0: _arm_timer_locked(idle_timeout)
 HFin(c, kind) == /\ hpc[c] = "fin" /\ hpc' = [hpc EXCEPT ![c] = "done"]
                  /\ connCount' = connCount - 1
                  /\ IF connCount - 1 = 0 THEN Arm(kind) ELSE UNCHANGED <<timer, tst, tkind, nTimers, quiet>>
-                 /\ UNCHANGED <<arrived, accepted, lpc, shutdownReq, idleElapsed, late, exitServing, exitNotIdle,
+                 /\ UNCHANGED <<maxPar, permits, arrived, accepted, lpc, shutdownReq, idleElapsed, late, exitServing, exitNotIdle,
                                 exitLate>>
 
 \* ---- idle timer threads ----
 \* the timer's wait elapsed (not cancelled in time): its thread is about to run _close_listener_if_idle
 TFire(t) == /\ tst[t] = "armed" /\ tst' = [tst EXCEPT ![t] = "fired"]
             /\ idleElapsed' = (idleElapsed \/ (quiet[t] /\ tkind[t] # "short"))
-            /\ UNCHANGED <<arrived, accepted, lpc, hpc, connCount, shutdownReq, timer, tkind, nTimers, quiet, late,
+            /\ UNCHANGED <<maxPar, permits, arrived, accepted, lpc, hpc, connCount, shutdownReq, timer, tkind, nTimers, quiet, late,
                            exitServing, exitNotIdle, exitLate>>
 \* _close_listener_if_idle:  timer = None; if conn_count != 0: return; shutdown_requested = True
 \*   guard = TRUE: the intended design ignores a callback whose timer is no longer the armed one
@@ -133,11 +142,11 @@ TRun(t, guard) == /\ tst[t] = "fired" /\ tst' = [tst EXCEPT ![t] = "done"]
                      THEN UNCHANGED <<timer, shutdownReq>>
                      ELSE /\ timer' = 0
                           /\ shutdownReq' = IF connCount = 0 THEN TRUE ELSE shutdownReq
-                  /\ UNCHANGED <<arrived, accepted, lpc, hpc, connCount, tkind, nTimers, Ghost>>
+                  /\ UNCHANGED <<maxPar, permits, arrived, accepted, lpc, hpc, connCount, tkind, nTimers, Ghost>>
 
 Next == \/ Arrive \/ LStart \/ LInit("grace") \/ LAccept \/ LLock1(FixClearOnAccept) \/ LLock2 \/ LTimeout
         \/ LCheck \/ LFinal
-        \/ \E c \in Conns : HStart(c) \/ HServeEnd(c) \/ HFin(c, "idle")
+        \/ \E c \in Conns : HStart(c) \/ HAcquire(c) \/ HServeEnd(c) \/ HFin(c, "idle")
         \/ \E t \in Timers : TFire(t) \/ TRun(t, FixStaleTimer)
 Spec == Init /\ [][Next]_vars
 
@@ -150,10 +159,11 @@ ExitOnlyAfterIdlePeriod == ~exitNotIdle
 NoLateAcceptAbandoned == ~exitLate
 
 \* ---------------------------------------------------------------- model sanity
+PermitsSane == maxPar > 0 => permits + Cardinality({c \in Conns : hpc[c] = "serving"}) = maxPar
 TypeOK == /\ arrived \in 0..MaxConns /\ accepted \in 0..arrived /\ connCount \in 0..MaxConns
           /\ timer \in 0..MaxTimers /\ nTimers \in 0..MaxTimers
           /\ lpc \in {"start", "initlock", "accept", "lock1", "lock2", "check", "final", "exited"}
-CountSane == connCount = Cardinality({c \in Conns : hpc[c] \in {"start", "serving", "fin"}})
+CountSane == connCount = Cardinality({c \in Conns : hpc[c] \in {"start", "semwait", "serving", "fin"}})
                          + (IF lpc = "lock2" THEN 1 ELSE 0)
 \* vacuity guards (expected to be *violated*: the states they exclude must be reachable)
 NeverExits == lpc # "exited"
